@@ -3,7 +3,7 @@ types.rs (re-verified copy), over an opaque, mechanically generated view of the 
 (C03, C06, C07, C08, C09, C13)"""
 import os
 import re
-from vlib.unit import Unit, REPO
+from vlib.unit import Unit, REPO, Undecided
 from vlib import genast
 from units import types as types_unit
 
@@ -281,16 +281,8 @@ def build():
     some = {k: ('%s:%s' % (v[0], v[1])) for k, v in ACC_SOME.items()}
     ast_text, n_nodes, n_acc = genast.generate(some, {k: (v[1], '%s:%s' % (v[0], v[2])) for k, v in ACC_CUSTOM.items()}, ACC_REQUIRES)
     U.raw(open(__file__.replace('units/sema.py', 'contracts/sema.context2.rs')).read())
-    # the names of the standard gate library: read, on every run, from the string literals of SymbolTable::standard_library_gates
-    from vlib.rustsrc import RustFile as _RFs
-    _rfs = _RFs(os.path.join(REPO, 'crates/oq3_semantics/src/symbols.rs'))
-    try:
-        _it = _rfs.find_fn('standard_library_gates', None, 1)
-        _names = sorted(set(re.findall(r'"(\w+)"', _rfs.src[_it['header_start']:_it['end']])))
-    except KeyError:
-        _names = []
-    U.raw('/// a gate name of the standard library (generated from SymbolTable::standard_library_gates)\npub open spec fn std_gate(n: Seq<char>) -> bool { %s }\n'
-          % (' || '.join('n == "%s"@' % n_ for n_ in _names) or 'false'))
+    from units.stdgates import std_gate_spec
+    U.raw(std_gate_spec())
     U.raw('''pub mod synast {
 use vstd::prelude::*;
 pub mod ast { pub use super::*; }
@@ -838,6 +830,55 @@ ensures
             if HAS_CTX.search(sig_):
                 kw_['spec'] = ctx_frame(kw_.get('spec'), fn_)
     z.ingest(overrides=zov, skip=S2S_SKIP, only_kinds=('fn',), default=dflt)
+    # ---- oq3_source_file::parse_included_files: one entry of `included` per include statement that names a real file, in order --
+    # the part of `analyzable` (the precondition of syntax_to_semantic) that is about counting.  The nested fn that reads and
+    # parses one file (fs, recursion into parse_source_and_includes) is replaced by a trusted stub; its text is pinned.
+    SF = 'crates/oq3_source_file/src/source_file.rs'
+    rsf = RustFile(os.path.join(REPO, SF))
+    pif_rw = []
+    try:
+        itp = rsf.find_fn('parse_included_files', None, 0)
+        ptxt = rsf.src[itp['header_start']:itp['end']]
+        rfn = RustFile('<pif>', ptxt)
+        itn = rfn.find_fn('parse_one_included', None, 1)
+        if itn:
+            nested = ptxt[itn['header_start']:itn['end']]
+            import hashlib as _hl
+            from vlib.unit import normalise_code as _nc, _trusted_hashes as _th
+            hv = _hl.sha1(_nc(nested).encode()).hexdigest()[:16]
+            U.trusted_seen = getattr(U, 'trusted_seen', {})
+            U.trusted_seen['SEMA::stub::parse_included_files::parse_one_included'] = hv
+            if _th().get('SEMA::stub::parse_included_files::parse_one_included') not in (None, hv):
+                raise Undecided('the text of the nested fn parse_one_included (source_file.rs) changed, but the unit models it by a trusted stub: no verdict')
+            pif_rw = [('STUB-nested-fn', nested, '/* nested fn parse_one_included: modelled by the trusted stub of the same name (text pinned) */'),
+                      ('D34', 'parse_included_files<P: AsRef<Path>>(', 'parse_included_files<P>(')]
+    except (KeyError, ValueError):
+        pif_rw = [('STUB-nested-fn', '\n    fn parse_one_included<NOT-FOUND', '')]
+    U.raw('''use source::ParsedSource;
+/// source_file.rs (trusted): searches the path list; the model has no std::path, so the `AsRef<Path>` bounds are dropped (D34)
+#[verifier::external_body] pub fn resolve_file_path<P>(file_path: &String, search_path_list: Option<&[P]>) -> PathBuf { unimplemented!() }
+/// source_file.rs, nested in parse_included_files: reads and parses one included file, or records why it could not be read --
+/// always one entry (trusted; its text is pinned in contracts/trusted_hashes.json)
+#[verifier::external_body] pub fn parse_one_included<P>(full_path: &PathBuf, include: synast::Include, search_path_list: Option<&[P]>) -> (r: Option<SourceFile>)
+    ensures r is Some,
+{ unimplemented!() }
+''')
+    U.file(SF).fn('parse_included_files', ret='r', props=['C03', 'C06'], closures=True, string_eq=['file_path'], nodecreases=True, rewrites=pif_rw,
+                  ghost=[('{', 'after', 'broadcast use sema_lemmas;')],
+                  loop_ghost='broadcast use sema_lemmas; reveal_with_fuel(source::n_real_includes, 2);',
+                  loops={1: '''invariant
+    oq3_v1@.len() + source::n_real_includes(oq3_it1.rest()) == source::n_real_includes(syntax_ast.sp_tree().sp_statements()),
+    forall|i: int| 0 <= i < oq3_it1.rest().len() && (#[trigger] oq3_it1.rest()[i]) is Include ==> oq3_it1.rest()[i]->Include_0.sp_file() is Some && oq3_it1.rest()[i]->Include_0.sp_file()->Some_0.sp_to_string() is Some,
+ensures oq3_it1.rest().len() == 0,
+decreases oq3_it1.rest().len(),'''},
+                  spec='''requires
+    // AP: every include statement of a parsed file names a file (else syntax error)
+    forall|i: int| 0 <= i < syntax_ast.sp_tree().sp_statements().len() && (#[trigger] syntax_ast.sp_tree().sp_statements()[i]) is Include
+        ==> syntax_ast.sp_tree().sp_statements()[i]->Include_0.sp_file() is Some && syntax_ast.sp_tree().sp_statements()[i]->Include_0.sp_file()->Some_0.sp_to_string() is Some,
+ensures
+    // one entry, in order, for every include statement that names a real file: the standard library is created, not read --
+    // the same predicate the analyser uses to decide whether it takes the next entry (source::is_real_include)
+    r@.len() == source::n_real_includes(syntax_ast.sp_tree().sp_statements()),      //@C03,C06:one-included-entry-per-real-include''')
     U.assumed_parser = (['%s::%s() returns Some — %s' % (k[0], k[1], v[1]) for k, v in sorted(ACC_SOME.items()) if v[0] == AP]
                         + ['%s::%s(): %s — %s' % (k[0], k[1], v[1], v[2]) for k, v in sorted(ACC_CUSTOM.items())]
                         + ['%s: arm `%s…` unreachable — %s' % (g[0], g[1][:40], g[3]) for g in PANIC_GUARDS if g[2] == AP])
@@ -845,6 +886,7 @@ ensures
                      'Context (symbol table, diagnostics, const values) is opaque with a ghost view; lookup_symbol / lookup_gate_symbol / new_binding carry the contracts proved in unit SYM',
                      'the unverified analyser functions (closures capturing &mut Context) are assumed to only append diagnostics',
                      'Context::standard_library_gates (flat_map / filter closures with side effects: not verified) is assumed to leave every name listed in SymbolTable::standard_library_gates bound (by it, or already before it)',
+                     'source_file.rs: parse_one_included (nested fn: fs, recursion) always yields an entry, resolve_file_path returns a path: trusted stubs, text pinned; the `AsRef<Path>` bounds of parse_included_files are dropped (D34: the model has no std::path)',
                      'std: String::as_ref keeps the characters; Result::clone clones the payload of the same variant; derive(Clone/PartialEq/Debug) structural']
     U.not_verified = ['syntax_to_semantics.rs: ' + ', '.join(sorted(S2S_UNVERIFIED)) + ', syntax_to_semantic, analyze_source, parse_* (generic SourceTrait plumbing)']
     return U
